@@ -116,6 +116,16 @@ type LinScenario struct {
 	Programs [][]Req `json:"programs"` // free mode: per client, commands issued one after another
 }
 
+// linSerialized: the server under test was seen to hold back a client while another one was parked inside a handler call
+var linSerialized bool
+
+func linParkWait(rn *runner) time.Duration {
+	if linSerialized {
+		return 30 * time.Millisecond
+	}
+	return rn.timeout
+}
+
 // quietOrParked waits until the client parked again (after park count since) or finished its request.
 func (rn *runner) quietOrParked(cr *connRun, ctl *gateCtl, since int, timeout time.Duration) bool {
 	deadline := time.Now().Add(timeout)
@@ -204,8 +214,17 @@ func (rn *runner) runLin(id int, s LinScenario) bool {
 		for _, op := range s.Ops {
 			issue(op.C, op.Req)
 		}
+		// every client reaches its first primitive (parks) or finishes.  A server that executes commands one at a time
+		// lets only one client get that far: once a wait expires while another client is parked, the following waits are
+		// short (the schedule's steps for the blocked clients are then recorded as not realisable, which is no verdict)
 		for _, op := range s.Ops {
-			rn.quietOrParked(conns[op.C], ctl, 0, rn.timeout)
+			if !rn.quietOrParked(conns[op.C], ctl, 0, linParkWait(rn)) {
+				for _, o2 := range s.Ops {
+					if o2.C != op.C && ctl.isParked(o2.C) {
+						linSerialized = true
+					}
+				}
+			}
 		}
 		for _, c := range s.Schedule {
 			if c < 0 || c >= n {
